@@ -269,7 +269,7 @@ def parseAd (line : String) : Option Ad :=
     | some c, some [w, h, k, cst, mx], some src, some thr =>
       if w < 1 ∨ h < 1 ∨ k < 1 ∨ src.length ≠ (w * h).toNat ∨ thr.length ≠ (w * h).toNat ∨ (c ≠ .u8 ∧ c ≠ .u16) then none
       else some { c := c, gauss := meth == "gauss", inv := dir == "inv", w := w.toNat, h := h.toNat, k := k.toNat,
-                  cst := c.wrap cst, mx := c.wrap mx, src := src, thr := thr }
+                  cst := c.wrap cst, mx := (if mx < 0 then c.hi else c.wrap mx), src := src, thr := thr }
     | _, _, _, _ => none
   | _ => none
 
